@@ -374,6 +374,10 @@ func (Spec) MakeInterest(name enc.Name, config *ndn.InterestConfig, appParam enc
 	if config == nil {
 		return nil, ndn.ErrInvalidValue{Item: "Interest.DataConfig", Value: nil}
 	}
+	if config.HopLimit != nil && *config.HopLimit > 0xff {
+		// HopLimit is a one-octet element; converting to byte would encode another hop limit
+		return nil, ndn.ErrInvalidValue{Item: "Interest.HopLimit", Value: *config.HopLimit}
+	}
 	forwardingHint := (*Links)(nil)
 	if config.ForwardingHint != nil {
 		forwardingHint = &Links{
